@@ -379,6 +379,8 @@ pub enum Callee {
     Deep,
     /// the native function value t1_s handed an integer: fails in the parameter conversion
     NativeBadArg,
+    /// fails through the t1_fail native two script calls below the callee's own frame
+    FailsDeep,
 }
 
 #[derive(Clone, Debug, Serialize, Deserialize)]
@@ -428,7 +430,8 @@ fn gen_workload(rng: &mut Rng) -> Workload {
         typed.push(TypedCall { native: "t0".into(), kinds: "".into(), args: vec![], path: rng.below(2) as u8 });
     }
     let reentry = if rng.chance(3, 5) {
-        let callee = match rng.below(10) {
+        let callee = match rng.below(11) {
+            10 => Callee::FailsDeep,
             0 => Callee::RetParam(0),
             1 => Callee::RetParam(1),
             2 => Callee::RetEarly,
@@ -517,6 +520,7 @@ fn build_program(w: &Workload) -> Module {
             ))),
             Callee::NativeValue => c(CardBody::NativeFunction("t1_v".into())),
             Callee::Fails => c(CardBody::Function(format!("cb_fail{}", rc.args.len()))),
+            Callee::FailsDeep => c(CardBody::Function(format!("cb_faildeep{}", rc.args.len()))),
             Callee::Spins => c(CardBody::Function(format!("cb_spin{}", rc.args.len()))),
             Callee::Deep => c(CardBody::Function("cb_deep".into())),
             Callee::NativeBadArg => c(CardBody::NativeFunction("t1_s".into())),
@@ -601,12 +605,26 @@ fn build_program(w: &Workload) -> Module {
         g.cards.push(Card::set_var("tmp", Card::string_card("temporary")));
         g.cards.push(Card::set_global_var("x", Card::call_native("t1_fail", vec![Card::scalar_int(1)])));
         m.functions.push((format!("cb_fail{n}"), g));
+        let mut gd = Function::default();
+        for i in 0..n {
+            gd = gd.with_arg(&format!("p{i}"));
+        }
+        gd.cards.push(Card::set_var("tmp", Card::string_card("temporary")));
+        gd.cards.push(Card::set_global_var("y", Card::call_function("cb_failmid", vec![])));
+        m.functions.push((format!("cb_faildeep{n}"), gd));
         s.cards.push(c(CardBody::While(Box::new([
             Card::scalar_int(1),
             Card::set_global_var("spin", Card::scalar_int(1)),
         ]))));
         m.functions.push((format!("cb_spin{n}"), s));
     }
+    m.functions.push((
+        "cb_failmid".into(),
+        Function::default().with_cards(vec![
+            Card::set_var("mid", Card::string_card("a local of the middle frame")),
+            Card::return_card(Card::call_function("cb_fail0", vec![])),
+        ]),
+    ));
     m.functions.push((
         "cb_deep".into(),
         Function::default().with_arg("p").with_cards(vec![
@@ -779,7 +797,8 @@ fn run_workload(w: &Workload) -> (Option<RunOut>, Vec<(Json, String)>) {
         // a swallowed callee failure is not an error of the run; a swallowed Timeout cannot buy
         // more instructions: the run still ends with Timeout
         let expect_err = match rc.callee {
-            Callee::Fails | Callee::NativeBadArg if rc.swallow => None,
+            Callee::Fails | Callee::FailsDeep | Callee::NativeBadArg if rc.swallow => None,
+            Callee::FailsDeep => Some(format!("TaskFailure({stub}):TaskFailure(t1_fail):InvalidArgument")),
             Callee::NativeBadArg => Some(format!("TaskFailure({stub}):TaskFailure(t1_s):InvalidArgument")),
             Callee::Fails => Some(format!("TaskFailure({stub}):TaskFailure(t1_fail):InvalidArgument")),
             Callee::Spins => Some("Timeout".to_string()),
@@ -816,7 +835,7 @@ fn run_workload(w: &Workload) -> (Option<RunOut>, Vec<(Json, String)>) {
                     Callee::RetParam(i) => rc.args.get(i).and_then(|a| a.obs()),
                     Callee::RetEarly | Callee::Deep => Some(Obs::Int(42)),
                     Callee::NoReturn => Some(Obs::Nil),
-                    Callee::Fails | Callee::NativeBadArg => Some(Obs::Nil),
+                    Callee::Fails | Callee::FailsDeep | Callee::NativeBadArg => Some(Obs::Nil),
                     Callee::ClosureCapture => Some(Obs::Int(11)),
                     Callee::NativeValue => None, // t1_v returns 1000 + index: checked through balance only
                     _ => None,
